@@ -472,6 +472,36 @@ pub enum CompressedColumnData {
 }
 
 impl CompressedColumnData {
+    /// Returns the position of an entity (given as its raw u64 id) in the compressed array.
+    ///
+    /// `index_to_id` is sorted by id, so this is a binary search.
+    fn index_of(&self, id: u64) -> Option<usize> {
+        let ids = match self {
+            Self::Integers { index_to_id, .. }
+            | Self::Strings { index_to_id, .. }
+            | Self::Booleans { index_to_id, .. } => index_to_id,
+        };
+        ids.binary_search(&id).ok()
+    }
+
+    /// Looks up the value stored for an entity (given as its raw u64 id).
+    fn get(&self, id: u64) -> Option<Value> {
+        let index = self.index_of(id)?;
+        match self {
+            Self::Integers { data, .. } => TypeSpecificCompressor::decompress_integers(data)
+                .ok()?
+                .get(index)
+                .map(|&v| Value::Int64(crate::storage::zigzag_decode(v))),
+            Self::Strings { encoding, .. } => encoding
+                .get(index)
+                .map(|s| Value::String(ArcStr::from(s))),
+            Self::Booleans { data, .. } => TypeSpecificCompressor::decompress_booleans(data)
+                .ok()?
+                .get(index)
+                .map(|&b| Value::Bool(b)),
+        }
+    }
+
     /// Returns the memory usage of the compressed data in bytes.
     #[must_use]
     pub fn memory_usage(&self) -> usize {
@@ -665,21 +695,31 @@ impl<Id: EntityId> PropertyColumn<Id> {
     /// First checks the hot buffer (uncompressed values), then falls back
     /// to the compressed data if present.
     #[must_use]
+    #[allow(unsafe_code)]
     pub fn get(&self, id: Id) -> Option<Value> {
         // First check hot buffer
         if let Some(value) = self.values.get(&id) {
             return Some(value.clone());
         }
 
-        // For now, compressed data lookup is not implemented for sparse access
-        // because the compressed format stores values by index, not by entity ID.
-        // This would require maintaining an ID -> index map in CompressedColumnData.
-        // The compressed data is primarily useful for bulk/scan operations.
-        None
+        // Then the compressed part: the id is located through the sorted id index.
+        let id_u64 = unsafe { std::mem::transmute_copy::<Id, u64>(&id) };
+        self.compressed.as_ref().and_then(|c| c.get(id_u64))
     }
 
     /// Removes a value for an entity.
+    #[allow(unsafe_code)]
     pub fn remove(&mut self, id: Id) -> Option<Value> {
+        // A compressed value cannot be removed in place: bring the column back into the
+        // hot buffer first so the removal really takes the value away.
+        let id_u64 = unsafe { std::mem::transmute_copy::<Id, u64>(&id) };
+        if self
+            .compressed
+            .as_ref()
+            .is_some_and(|c| c.index_of(id_u64).is_some())
+        {
+            self.decompress_all();
+        }
         let removed = self.values.remove(&id);
         if removed.is_some() {
             // Mark zone map as dirty - would need full rebuild for accurate min/max
@@ -945,7 +985,7 @@ impl<Id: EntityId> PropertyColumn<Id> {
                     for (i, id_u64) in index_to_id.iter().enumerate() {
                         if let Some(&value) = signed.get(i) {
                             let id: Id = unsafe { std::mem::transmute_copy(id_u64) };
-                            self.values.insert(id, Value::Int64(value));
+                            self.values.entry(id).or_insert(Value::Int64(value));
                         }
                     }
                 }
@@ -958,7 +998,9 @@ impl<Id: EntityId> PropertyColumn<Id> {
                 for (i, id_u64) in index_to_id.iter().enumerate() {
                     if let Some(s) = encoding.get(i) {
                         let id: Id = unsafe { std::mem::transmute_copy(id_u64) };
-                        self.values.insert(id, Value::String(ArcStr::from(s)));
+                        self.values
+                            .entry(id)
+                            .or_insert_with(|| Value::String(ArcStr::from(s)));
                     }
                 }
             }
@@ -969,7 +1011,7 @@ impl<Id: EntityId> PropertyColumn<Id> {
                     for (i, id_u64) in index_to_id.iter().enumerate() {
                         if let Some(&value) = values.get(i) {
                             let id: Id = unsafe { std::mem::transmute_copy(id_u64) };
-                            self.values.insert(id, Value::Bool(value));
+                            self.values.entry(id).or_insert(Value::Bool(value));
                         }
                     }
                 }
